@@ -265,6 +265,20 @@ fn main() {
     let mut guard = 0;
     while ms.len() < a.n && guard < a.n * 20 + 100 {
         guard += 1;
+        // cross-module misuse family: a fresh two-module library (no dependencies), 1-3 misuse snippets
+        if r.chance(1, 7) {
+            let id = ms.len();
+            let dir = scratch.join(format!("m{id}"));
+            let mut t = String::from("library;\nmod svxmod;\nuse svxmod::*;\n");
+            let nsn = if r.chance(2, 3) { 1 } else { 2 + r.below(2) };   // mostly ONE misuse, so no other error hides it
+            for _ in 0..nsn { t.push('\n'); t.push_str(*r.pick(XUSE)); t.push('\n'); }
+            svharness::swayrun::write_pkg(&dir, "xmodpkg", &t, false, "").unwrap();
+            std::fs::write(dir.join("src").join("svxmod.sw"), XMOD).unwrap();
+            use sha2::Digest;
+            let fp = hex::encode(sha2::Sha256::digest(t.as_bytes()))[..12].to_string();
+            ms.push(M { id, pkg: "gen/xmod".into(), file: "main.sw".into(), kind: "xmod_misuse".into(), fp, dir, src: t });
+            continue;
+        }
         let use_std = r.below(100) < std_share && !withstd.is_empty();
         let pool = if use_std { &withstd } else { &nodep };
         if pool.is_empty() { continue; }
@@ -279,20 +293,7 @@ fn main() {
         if src.len() > 60_000 { continue; }
         let (mut kind, mut m) = mutate(&mut r, &src);
         if r.chance(1, 4) { let (k2, m2) = mutate(&mut r, &m); kind = format!("{kind}+{k2}"); m = m2; }
-        // cross-module misuse family: only for the entry file of the package
-        let relname = f.strip_prefix(orig.join("src")).unwrap().display().to_string();
-        let mut xmod = false;
-        if (relname == "main.sw" || relname == "lib.sw") && r.chance(1, 6) {
-            if let Some(pos) = ["script;", "library;", "contract;", "predicate;"].iter().filter_map(|k| src.find(k).map(|i| i + k.len())).min() {
-                let mut t = String::new();
-                t.push_str(&src[..pos]);
-                t.push_str("\nmod svxmod;\nuse svxmod::*;\n");
-                t.push_str(&src[pos..]);
-                let nsn = 1 + r.below(3);
-                for _ in 0..nsn { t.push('\n'); t.push_str(*r.pick(XUSE)); t.push('\n'); }
-                m = t; kind = "xmod_misuse".into(); xmod = true;
-            }
-        }
+        let xmod = false;
         if m == src { continue; }
         let id = ms.len();
         let dir = scratch.join(format!("m{id}"));
